@@ -53,6 +53,8 @@ pub enum Policy {
     Consume,
     /// it is processed again from ground (WHATWG / Unicode "maximal subpart" practice)
     Reprocess,
+    /// an ASCII byte is processed again (it can never be part of a multi-byte character), any other byte is swallowed
+    Hybrid,
 }
 
 pub const MAX_PARAMS: usize = 32;
@@ -247,7 +249,7 @@ impl RefVt {
         } else {
             self.utf8_need = 0;
             self.emit(Ev::Print('\u{fffd}'));
-            if self.policy == Policy::Reprocess {
+            if self.policy == Policy::Reprocess || (self.policy == Policy::Hybrid && b < 0x80) {
                 self.step(b);
             }
         }
